@@ -21,6 +21,14 @@ def write_if_changed(path, content):
 def main():
     repo, out = sys.argv[1], sys.argv[2]
     gens = []
+    # per-property generators live in tools/tables_*.py (`def generate(repo, out, write_if_changed)`),
+    # so that adding one does not edit this file
+    import glob, importlib.util
+    for path in sorted(glob.glob(os.path.join(os.path.dirname(os.path.abspath(__file__)), "tables_*.py"))):
+        spec = importlib.util.spec_from_file_location(os.path.basename(path)[:-3], path)
+        mod = importlib.util.module_from_spec(spec)
+        spec.loader.exec_module(mod)
+        gens.append(lambda repo, out, mod=mod: mod.generate(repo, out, write_if_changed))
     for g in gens:
         g(repo, out)
     return 0
